@@ -42,6 +42,26 @@ pub fn actor_main(id: &str) -> i32 {
             FsOp::Mkdir { path } => {
                 let _ = std::fs::create_dir_all(path);
             }
+            FsOp::TamperKeepStat { path } => {
+                use std::os::unix::fs::MetadataExt;
+                if let (Ok(md), Ok(mut bytes)) = (std::fs::metadata(path), std::fs::read(path)) {
+                    if md.is_file() && !bytes.is_empty() {
+                        for b in bytes.iter_mut() {
+                            *b = b.wrapping_add(1);
+                        }
+                        let _ = std::fs::write(path, &bytes);
+                        if let Ok(c) = std::ffi::CString::new(path.as_bytes()) {
+                            let ts = [
+                                libc::timespec { tv_sec: md.atime(), tv_nsec: md.atime_nsec() },
+                                libc::timespec { tv_sec: md.mtime(), tv_nsec: md.mtime_nsec() },
+                            ];
+                            unsafe {
+                                libc::utimensat(libc::AT_FDCWD, c.as_ptr(), ts.as_ptr(), 0);
+                            }
+                        }
+                    }
+                }
+            }
         }
     }
     let _ = std::io::stdout().write_all(&script.stdout);
